@@ -228,6 +228,20 @@ def mqtt_recv_worker(analysis: Analysis, flavour: str) -> dict:
     return {"flavour": flavour, "qual": m.qual, "rows": rows}
 
 
+def inbound_text_encodable(analysis: Analysis, res, rule: str) -> None:
+    """Lemma for C01: what the line readers hand to the gateway can be encoded again. Text decoded with
+    'replace' / 'ignore' holds no lone surrogates; with 'surrogateescape' it can (a later strict `.encode()` of a
+    reply that copies the payload raises UnicodeEncodeError in the pump), and 'strict' raises in the reader."""
+    classes = analysis.refl["classes"]
+    for q in sorted({FAMILIES[f][i] for f in FAMILIES for i in (4, 5) if FAMILIES[f][i]}):
+        r = classes.get(refl_name(q))
+        if r is None or not r.get("framing"):
+            raise AnalysisError(f"{rule}: no reflected framing for {q}")
+        got = r["framing"].get("UNICODE_HANDLING")
+        ok = got in ("'replace'", "'ignore'")
+        res.add(rule, f"{q} / inbound bytes are decoded to text that can be encoded again", ok, "mysensors/transport.py", f"UNICODE_HANDLING = {got}" if ok else f"UNICODE_HANDLING = {got}: an inbound line with invalid UTF-8 either raises in the reader or leaves lone surrogates in stored payloads - the strict encode() of a later reply raises UnicodeEncodeError out of the pump")
+
+
 def run(analysis: Analysis, tier: str) -> RuleResult:
     res = RuleResult(PROP)
     res.explanation = [
@@ -297,6 +311,12 @@ def run(analysis: Analysis, tier: str) -> RuleResult:
     n_jobs = 0
     for recs in common.pmap(analysis, pathsum.logic_records, [(last, "serial", "sync"), (analysis.versions[0], "serial", "sync"), (last, "mqtt", "sync")]):
         for r in recs:
+            nested = [sk for sk in r["sinks"] if sk["kind"] == "add_job"]
+            if nested and r["kind"] == "val":
+                # order of emitted commands: the asyncio flavour runs a nested job (and sends its reply) inside the
+                # handler, before the line's own reply; the threaded flavour queues it behind the line's own reply
+                ok_o = bool(r.get("ret_none"))
+                res.add("C19-R4", f"{nested[0]['func']} / a line that queues further jobs has no reply of its own (the two flavours would send them in different orders)", ok_o, f"{nested[0]['func']}:{nested[0]['line']}", "the handler returns None on this path" if ok_o else f"the path queues {len(nested)} job(s) and also returns a reply: the threaded gateway writes the reply first and the queued command after it, the asyncio gateway the other way round", r["witness"] if not ok_o else None, context=r["ctx"])
             for sk in r["sinks"]:
                 if sk["kind"] != "add_job":
                     continue
